@@ -148,9 +148,11 @@ func init() {
 							if s2, i2 := cf.structIdxCall(ip.Args[0], "Tag"); s2 == st && i2 == iv && st != nil {
 								// the prevented edge returns an error
 								is := g.At.(*ast.IfStmt)
-								for _, r2 := range cf.returnsOf() {
-									if cf.within(r2, is.Body) && cf.isNilIdent(r2.Results[0]) && !cf.isNilIdent(r2.Results[1]) {
-										ok = true
+								for _, root := range cf.otherEdgeRoots(is, ret) {
+									for _, r2 := range cf.returnsOf() {
+										if cf.within(r2, root) && cf.isNilIdent(r2.Results[0]) && !cf.isNilIdent(r2.Results[1]) {
+											ok = true
+										}
 									}
 								}
 							}
@@ -639,7 +641,7 @@ func init() {
 					if g.Kind != "bool" || g.Neg {
 						continue
 					}
-					if fi.varOf(g.Expr) == flag && g.At.Pos() > insp.End() {
+					if fi.varOf(g.Expr) == flag && startOf(g.At) >= endOf(insp) {
 						ok = true
 					}
 					if cl, isCall := ast.Unparen(g.Expr).(*ast.CallExpr); isCall {
